@@ -117,14 +117,17 @@ class TwinPaths:
             v = self.jvalue(self.J, name)
         return v
 
-    def normalise(self, txt, side):
+    def normalise(self, txt, side, recv=None):
         if side == 'c':
             txt = self.strip_err(txt)
+            if recv:
+                txt = self.drop_receiver(txt, recv)
         txt = re.sub(r'_catch\(', '(', txt)
+        txt = self.unparen(txt)
         txt = re.sub(r'#\d+', '', txt)
         txt = re.sub(r'(\w)@L?\d+', r'\1', txt)
         txt = re.sub(r'\b(\w+?)_arr(2?)\b', r'\1\2', txt)
-        txt = txt.replace('Math.', '')
+        txt = txt.replace('Math.', '').replace('Xraylib.', '')
         # flat indices of the Java tables
         for d in self.dims:
             txt = re.sub(r'\[%s\*(\w+) \+ ([^\[\]]+)\]' % d, r'[\1][\2]', txt)
@@ -152,6 +155,11 @@ class TwinPaths:
         except Exception:
             return txt
 
+    @staticmethod
+    def unparen(txt):
+        from .absint import unparen
+        return unparen(txt)
+
     def sign_class(self, it, p):
         iv = it.interval_of(p.ret, p)
         if iv.lo is not None and (iv.lo > 0 or (iv.lo == 0 and iv.los)):
@@ -163,10 +171,38 @@ class TwinPaths:
         # "!= 0" is how C spells "the callee did not fail" where Java relies on the callee's exception: not a difference in itself
         return 'free'
 
+    def resolve(self, side, f):
+        """(body to read, Java helper methods to inline, name of the C parameter that is the Java receiver)
+
+        static f(obj, args) { return obj.g(args); } in Xraylib.java: the method g of obj's class is the body that the C function is the
+        twin of; its private helpers (cosd, sind, pow2: macros in C) are inlined; the fields it reads are the members of the record
+        that C receives as its first parameter."""
+        if side == 'j':
+            d = self.J.delegate(f)
+            if d:
+                cls, m = d
+                helpers = {h['name']: h for h in cls['functions'] if h['name'] not in self.C.funcs and h['name'] not in self.J.funcs
+                           and h.get('body') and h is not m}
+                return m, helpers, None
+            return f, {}, None
+        jf = self.J.funcs.get(f.get('name'))
+        if jf is not None and self.J.delegate(jf) and f.get('params'):
+            return f, {}, f['params'][0]['name']
+        return f, {}, None
+
+    @staticmethod
+    def drop_receiver(txt, recv):
+        """crystal.a -> a, g(crystal,x) -> g(x), g(crystal) -> g(): the C spelling of what Java reads from / calls on `this`"""
+        txt = re.sub(r'\b%s\.' % re.escape(recv), '', txt)
+        txt = re.sub(r'\(%s,' % re.escape(recv), '(', txt)
+        txt = re.sub(r'\(%s\)' % re.escape(recv), '()', txt)
+        return txt
+
     def forms(self, side, f):
         key = (side, f.get('name'), id(f))
         if key in self._cache:
             return self._cache[key]
+        f, helpers, recv = self.resolve(side, f)
         f = dict(f)
         f.setdefault('unit', 'java/Xraylib.java' if side == 'j' else f.get('unit'))
         f.setdefault('rel', f['unit'])
@@ -175,12 +211,15 @@ class TwinPaths:
         it.keep_macros = True
         if side == 'j':
             it.const_globals = self.jints
+            it.extra_inlinable = helpers
+        if recv:
+            it.receiver = recv
         paths = it.run()
         out = set()
         for p in paths:
             if p.ret is None or it.is_zero(p.ret, p):
                 continue
-            c = self.normalise(p.ret.canon(), side)
+            c = self.normalise(p.ret.canon(), side, recv)
             if re.search(r'\b(ret|cond|initlist)\b', c) or '?uninit' in c:
                 raise NotInClass('opaque return value in %s' % f.get('name'))
             out.add('%s   [value %s]' % (c, self.sign_class(it, p)))
@@ -190,6 +229,7 @@ class TwinPaths:
     def reference_forms(self, side, f):
         """forms() plus, per path, the calls made on it with their (normalised) arguments: for functions whose result reaches the return
         statement through an out-parameter (the spline callers) the tables that are read are only visible in the call"""
+        f, helpers, recv = self.resolve(side, f)
         f2 = dict(f)
         f2.setdefault('unit', 'java/Xraylib.java' if side == 'j' else f.get('unit'))
         f2.setdefault('rel', f2['unit'])
@@ -198,16 +238,19 @@ class TwinPaths:
         it.keep_macros = True
         if side == 'j':
             it.const_globals = self.jints
+            it.extra_inlinable = helpers
+        if recv:
+            it.receiver = recv
         out = set()
         for p in it.run():
             if p.ret is None or it.is_zero(p.ret, p):
                 continue
-            c = self.normalise(p.ret.canon(), side)
+            c = self.normalise(p.ret.canon(), side, recv)
             calls = set()
             for e in p.events:
                 if e.kind == 'call' and e.name and not e.name.startswith('xrl_') and e.name not in ('malloc', 'free', 'calloc', 'realloc', 'memcpy'):
-                    args = ','.join(self.normalise(a.canon(), side) if a is not None else '?' for a in (e.args or []))
-                    calls.add(self.normalise('%s(%s)' % (e.name, args), side))
+                    args = ','.join(a.canon() if a is not None else '?' for a in (e.args or []))
+                    calls.add(self.normalise('%s(%s)' % (e.name, args), side, recv))
             # the range of every integer parameter on this path (which shells / lines / elements take this branch)
             rng = []
             for prm in f2.get('params', []):
@@ -215,7 +258,28 @@ class TwinPaths:
                     iv = it.interval_of(Rat.sym(prm['name']), p)
                     if iv.lo is not None or iv.hi is not None or iv.ne:
                         rng.append('%s in [%s, %s]%s' % (prm['name'], iv.lo, iv.hi, (' except %s' % sorted(iv.ne)) if iv.ne else ''))
-            out.add('%s   [value %s]   calls %s   when %s' % (c, self.sign_class(it, p), sorted(calls), rng))
+            # what the path stores into records and arrays (a structure-valued result is built that way: F_H.re, F_H.im)
+            stores = set()
+            for e in p.events:
+                if e.kind == 'store' and e.lv and hasattr(e.value, 'canon'):
+                    stores.add('%s = %s' % (self.normalise(e.lv, side, recv), self.normalise(e.value.canon(), side, recv)))
+                elif e.kind == 'iter-end' and isinstance(e.args, dict):
+                    # accumulators: what one iteration adds to a local that is carried round the loop (its name does not matter;
+                    # counters and temporaries that are recomputed in every iteration are not accumulators)
+                    for vname, (start, end) in e.args.items():
+                        if end is None or not hasattr(end, 'canon'):
+                            continue
+                        sc, ec = start.canon(), end.canon()
+                        if sc not in ec or ec == sc:
+                            continue
+                        try:
+                            step = (end - start)
+                            if step.n.is_const() and step.d.is_const():
+                                continue
+                        except Exception:
+                            pass
+                        stores.add('ACC = %s' % self.normalise(ec.replace(sc, 'ACC'), side, recv))
+            out.add('%s   [value %s]   calls %s   stores %s   when %s' % (c, self.sign_class(it, p), sorted(calls), sorted(stores), rng))
         return sorted(out)
 
     def compare(self, name):
